@@ -263,7 +263,39 @@ func genAsset(r *lib.Rand, d int) Asset {
 	return a
 }
 
-func genHT(r *lib.Rand, h *History) {
+func htSweep() []func(*Asset) {
+	var fs []func(*Asset)
+	for _, v := range sweepAmounts() {
+		v := v
+		fs = append(fs, func(a *Asset) { a.Limit = v }, func(a *Asset) { a.TBL = v }, func(a *Asset) { a.Fixed = v },
+			func(a *Asset) { a.Min = v }, func(a *Asset) { a.Max = v })
+	}
+	for _, d := range []int{0, 2, 3, 12} {
+		d := d
+		fs = append(fs, func(a *Asset) { a.D = d })
+	}
+	for _, v := range []uint64{0, 49, 51, 34560, 34561} {
+		v := v
+		fs = append(fs, func(a *Asset) { a.MinLock = v }, func(a *Asset) { a.MaxLock = v })
+	}
+	fs = append(fs, func(a *Asset) { a.Deputy = -1 }, func(a *Asset) { a.Active = false }, func(a *Asset) { a.Period = 0 },
+		func(a *Asset) { a.Period = -1 }, func(a *Asset) { a.TL = !a.TL })
+	return fs
+}
+
+func genHT(r *lib.Rand, h *History, i int) {
+	if sw := htSweep(); i < len(sw) {
+		a := Asset{D: 10, Limit: sp("1000000000"), TL: i%2 == 0, Period: int64(time.Hour), TBL: sp("50000000"), Active: true, Deputy: 2,
+			Fixed: sp("1000"), Min: sp("2000"), Max: sp("100000000"), MinLock: 50, MaxLock: 34560}
+		sw[i](&a)
+		h.HT = []Asset{a}
+		h.Via = sweepVia(i)
+		amt := func(lo, hi int64) string { return big.NewInt(r.Range(lo, hi)).String() }
+		h.Steps = []Step{{"block", []string{"1"}}, {"create", []string{"10", amt(3000, 60000000), "2", "1", "50"}}, {"claim", nil},
+			{"create", []string{"10", amt(3000, 100000), "1", "2", "55"}}, {"block", []string{"2"}},
+			{"create", []string{"10", amt(3000, 60000000), "2", "1", "50"}}, {"create", []string{"10", amt(3000, 100000), "1", "2", "50"}}, {"claim", nil}}
+		return
+	}
 	na := r.Weighted(1, 5, 3)
 	for i := 0; i < na; i++ {
 		d := 10 + i
